@@ -160,7 +160,7 @@ func vpCheckLayout(r []byte) {
 // request type that a given response type answers
 func vpAnswers(resp uint16) uint16 { return resp - 1 }
 
-//vp:property C01 C16 C03 C10
+//vp:property C01 C02 C16 C03 C10
 //vp:set bodymax 10 14
 //vp:set budget 40 600
 //vp:set maxalloc 40 40
